@@ -1,21 +1,105 @@
 /-
 C06 — the embedded terminal shows what a DEC VT / xterm would show (core vocabulary).
 
-Refinement of the reference terminal `Spec.Term` by the emulator model through the simulation
-relation `Sim` (Lemmas/EmuRefine.lean): for every pair of related states and every operation of
-the vocabulary with every parameter, the emulator's next state is accepted by one of the states the
-reference allows (or the reference leaves the result unconstrained). Proved per operation; see
-notes/C06.md for the list of operations covered by proof and those covered only by evaluating the
-reference as an oracle on the implementation.
+The emulator model (Model/Emu.lean, validated against the real code after every operation)
+REFINES the reference terminal `Spec.Term` (written from DESIGN Appendix A): with the simulation
+relation `Sim2 t e rows cols` (Lemmas/EmuRefine.lean, EmuRefine2.lean: the reference state `t`
+accepts what the emulator state `e` shows — size, screen selector, cursor with the emulator's
+column = width read as the pending-wrap flag, pen, margins, every cell of the active grid with
+erased cells = blanks of the stored background; saved cursors correspond; `e` satisfies the C05
+invariant and is in the modes the vocabulary cannot leave),
+
+* `emu_refines_term`: for EVERY pair of related states, on every screen 1×1 … 65535², every
+  operation of the vocabulary (`tokOf op = some tok`: print narrow/wide, CR, LF/VT/FF, IND, NEL, RI,
+  CUP/HVP, CHA/HPA, VPA, CUU, CUD, CUF, CUB, CNL, CPL, EL, ED, ECH, ICH, DCH, IL, DL, SU, SD, DECSTBM,
+  DECSC, DECRC, ?1049 h/l) with EVERY parameter value (omitted, 0, 1, …, beyond the screen, beyond
+  65535), the emulator step succeeds and its result is related to one of the states the reference
+  accepts — unless the reference leaves the result unconstrained (pending wrap + anything but
+  print/CR/absolute positioning …, as the property says).
+* `emu_refines_histories`, `emu_refines_from_start`: lifted to all histories over the vocabulary by
+  induction, from a freshly started terminal of any size.
+
+Not covered by these theorems: SGR (the pen interpretation is C18's theorem about its own model of
+sgr.go; here the pen is compared by the oracle on the implementation), glyphs with an empty
+grapheme string (the parser never emits them), parameters with sub-parameters / more than two
+parameters (outside `tokOf`).
 -/
-import VaxisModel.Lemmas.EmuRefine
-import VaxisModel.Lemmas.EmuRefineCursor
+import VaxisModel.Lemmas.EmuRefineStep
+import VaxisModel.Props.C05
 
 namespace VaxisModel.Props.C06
 open VaxisModel.Model.Emu VaxisModel.Model.EmuAbs VaxisModel.Lemmas.Emu VaxisModel.Lemmas.EmuRefine VaxisModel.Spec
 
-/-- CR. -/
-theorem cr_refines {t : Term.T} {e : Emu} {rows cols : Nat} (s : Sim t e rows cols) :
-    Refines (Term.step t .cr) (cr e) rows cols := VaxisModel.Lemmas.EmuRefine.cr_refines s
+/-- The per-step safety of C05 in the form the history theorems need. -/
+theorem step_safe : StepSafe :=
+  fun _ _ _ op h d hop => VaxisModel.Props.C05.emu_safe h d op hop
+
+/-- One operation of the vocabulary, any parameter, any related states. -/
+theorem emu_refines_term {t : Term.T} {e : Emu} {rows cols : Nat} (op : EOp) (tok : Term.Tok)
+    (h : tokOf op = some tok) (hsgr : ∀ pm, tok ≠ .sgr pm) (hpr : ∀ g w, op = .print g w → g ≠ [])
+    (s2 : Sim2 t e rows cols) :
+    ∃ r, emuStep e op = .ok r ∧ Refines2 (Term.step t tok) r.1 rows cols :=
+  emu_refines_step op tok h hsgr hpr s2
+
+/-- All histories over the vocabulary: the emulator runs to completion and, following the reference
+    through its accept-sets, either some step was left unconstrained by the reference or the final
+    states are related. -/
+theorem emu_refines_histories {rows cols : Nat} {ops : List EOp} {toks : List Term.Tok}
+    (hv : VocabHist ops toks) {t : Term.T} {e : Emu} (s2 : Sim2 t e rows cols) :
+    ∃ e', runOps e ops = .ok e' ∧ SpecAllows t toks e' rows cols :=
+  emu_refines_history step_safe hv s2
+
+/-- The same without appeal to C05 and step by step: every step up to and including the first one
+    the reference leaves unconstrained is panic-free and accepted. -/
+theorem emu_refines_prefixes {rows cols : Nat} {ops : List EOp} {toks : List Term.Tok}
+    (hv : VocabHist ops toks) {t : Term.T} {e : Emu} (s2 : Sim2 t e rows cols) :
+    HistOk rows cols t e ops toks :=
+  emu_refines_prefix hv s2
+
+/-- A freshly started terminal (New() + resize) of any admissible size is related to the
+    reference's power-on state. -/
+theorem fresh_related (w h : Int) (hw1 : 1 ≤ w) (hw2 : w ≤ 65535) (hh1 : 1 ≤ h) (hh2 : h ≤ 65535)
+    {e0 : Emu} (he : Emu.new Fixes.current w h = .ok e0) :
+    Sim2 (Term.T.init h.toNat w.toNat) e0 h.toNat w.toNat :=
+  sim2_init w h hw1 hw2 hh1 hh2 he
+
+/-- From start-up. -/
+theorem emu_refines_from_start (w h : Int) (hw1 : 1 ≤ w) (hw2 : w ≤ 65535) (hh1 : 1 ≤ h) (hh2 : h ≤ 65535)
+    {ops : List EOp} {toks : List Term.Tok} (hv : VocabHist ops toks) :
+    ∃ e0 e', Emu.new Fixes.current w h = .ok e0 ∧ runOps e0 ops = .ok e' ∧
+      SpecAllows (Term.T.init h.toNat w.toNat) toks e' h.toNat w.toNat :=
+  emu_refines_session step_safe w h hw1 hw2 hh1 hh2 hv
+
+/-- What `Sim2` says about the display, spelled out: the reference accepts the abstraction of the
+    emulator state. -/
+theorem sim_accepts {t : Term.T} {e : Emu} {rows cols : Nat} (s2 : Sim2 t e rows cols) :
+    t.rows = rows ∧ t.cols = cols ∧ t.onAlt = e.altActive ∧ (t.row : Int) = e.cur.row ∧
+    t.pw = decide (e.cur.col ≥ cols) ∧ t.pen = absStyle e.cur.st ∧
+    (t.top : Int) = e.top ∧ (t.bottom : Int) = e.bottom ∧
+    Term.gridAccepts t.grid (e.active.map absRow) = true :=
+  ⟨s2.sim.trows, s2.sim.tcols, s2.sim.onAlt, s2.sim.row, s2.sim.pw, s2.sim.pen, s2.sim.top, s2.sim.bottom,
+    s2.sim.grid⟩
+
+/-- The full statement including SGR (not proved against this transcription of sgr.go; C18 proves
+    the pen interpretation for its own model; the oracle compares the pen on the implementation). -/
+def emu_refines_term_full : Prop :=
+  ∀ {t : Term.T} {e : Emu} {rows cols : Nat} (op : EOp) (tok : Term.Tok),
+    tokOf op = some tok → (∀ g w, op = .print g w → g ≠ []) → Sim2 t e rows cols →
+    ∃ r, emuStep e op = .ok r ∧ Refines2 (Term.step t tok) r.1 rows cols
+
+/-! ### non-vacuity -/
+
+/-- A related pair exists: the fresh 80×24 terminal. -/
+example : ∃ t e, Sim2 t e 24 80 := by
+  obtain ⟨e0, he, _⟩ := VaxisModel.Props.C05.new_good 80 24 (by decide) (by decide) (by decide) (by decide)
+  exact ⟨_, e0, fresh_related 80 24 (by decide) (by decide) (by decide) (by decide) he⟩
+
+/-- A history over the vocabulary: `CSI 0;0 H`, print "a", `CSI 2 K`, LF. -/
+example : VocabHist [.csi [72] [(0, []), (0, [])], .print [97] 1, .csi [75] [(2, [])], .c0 10]
+    [.cup 0 0, .print [97] 1, .el 2, .lf] := by
+  refine .cons ⟨by decide, (by intro pm h; cases h), (by intro g w h; cases h)⟩ ?_
+  refine .cons ⟨by decide, (by intro pm h; cases h), (by intro g w h; cases h; decide)⟩ ?_
+  refine .cons ⟨by decide, (by intro pm h; cases h), (by intro g w h; cases h)⟩ ?_
+  exact .cons ⟨by decide, (by intro pm h; cases h), (by intro g w h; cases h)⟩ .nil
 
 end VaxisModel.Props.C06
